@@ -504,6 +504,8 @@ func writeEvidence(prop string, o checkOpts, res *checkResult) {
 	sort.Strings(assumptions)
 	assumptions = append(assumptions,
 		"go/ssa (x/tools v0.29.0) preserves the semantics of the gc compiler",
+		"machine arithmetic is modelled as machine arithmetic: integers are fixed-width bit-vectors with Go's wrap-around, shifts and conversions; float32/float64 are IEEE-754 in the SMT FloatingPoint theory (round-to-nearest-even, no fused multiply-add); nothing is idealised to mathematical integers or reals",
+		"no unsafe code or cgo in the functions under contract (an unsafe conversion leaves the supported subset: fail closed)",
 		"int/uint/uintptr are 64 bit (amd64/arm64)",
 		"slice capacities <= 2^32 elements, allocation frontier < 2^62 (finite memory)",
 		"closed world: interface values hold nil or a type declared in the loaded packages",
